@@ -61,6 +61,20 @@ func (c10) Gen(r *sim.Rand, c *sim.Case, tier string) {
 		ops = append(ops, sim.Op{K: "foreign", I: []int{int(r.Uint64() >> 40), flags, r.Intn(3)}})
 		c.Cfg["foreign"] = 1
 	}
+	if c.Cfg["foreign"] == 0 && r.Chance(0.2) {
+		// pictures in the cells of a table nested in a table cell (and one in the outer table)
+		ops = append(ops, sim.Op{K: "t.new", I: []int{2, 2, 5000, 0, 0}},
+			sim.Op{K: "t.nested", I: []int{0, r.Intn(2), r.Intn(2), r.Range(1, 2), r.Range(1, 2), 3000, 0, 0}})
+		for k, m := 0, r.Range(1, 3); k < m; k++ {
+			f := r.Intn(3)
+			tbl := 1000
+			if k == 1 {
+				tbl = 0
+			}
+			ops = append(ops, sim.Op{K: "cellimg", I: []int{f, r.Range(1, 30), r.Range(1, 30), 300000 + k*7919 + r.Intn(1000), r.Intn(4), 0, 0, 0, tbl, r.Intn(2), r.Intn(2)},
+				F: []float64{float64(r.Range(5, 80)), float64(r.Range(5, 80)), 0, 0}, S: []sim.Str{sim.Str(g.ImageName(f)), sim.Str(fmt.Sprintf("nested-pic-%d", k)), "t"}})
+		}
+	}
 	n := r.Range(3, 20)
 	for len(ops) < n {
 		switch x := r.Intn(10); {
